@@ -2,7 +2,8 @@
 PROP = "C20"
 LEVEL = "other"
 EXPLANATION = 'bounded stand-in: generated source files / source-less code x messages x verbosity x UTF-8; highlighter corpus'
-TARGETS = []
+from . import trace_contracts as tcx
+TARGETS = [tcx.H + "line_numbers", tcx.H + "code_snippet"]
 LEMMAS = []
 try:
     from .C20_bounded import bounded, BOUNDED_RULE  # noqa: F401
